@@ -194,5 +194,464 @@ theorem C12_layerB_put_effect_before_ack {cfg : Cfg} {now : Nat} {seeds : List N
   · obtain ⟨t, ht⟩ := (ackInv_reach hr).ttlPutTtl c e hw
     rw [httl] at ht; cases ht
 
+/-- the id of a put the worker has not yet stored (positions `store.present` … `store.put`) is FRESH: not charged
+    before `kw.insert`, carried by no store entry, in no index entry -/
+theorem ack_fresh_unused {b : BState} (hb : BInv b) {f : Nat} (hf : b.w.freshId? = some f) :
+    (∀ k e, b.g.store.get? k = some e → e.id ≠ f) ∧ (∀ sh, b.g.ttl.get? (sh, f) = none) := by
+  have hocc : 0 < occ b f := by simp [occ, hf]
+  have hnot : f ∉ usedIds b := fun hu => by
+    have := (hb.freshIds.2.2.2.2.1 f hu).1
+    omega
+  rw [mem_usedIds] at hnot
+  simp only [not_or, not_exists, not_and] at hnot
+  constructor
+  · intro k e hk hid
+    exact hnot.1 (k, e) (AMap.mem_of_get? hk) hid
+  · intro sh
+    cases hg : b.g.ttl.get? (sh, f) with
+    | none => rfl
+    | some e => exact absurd rfl (hnot.2.1 ((sh, f), e) (AMap.mem_of_get? hg))
+
+/-- **C12 (put, rejected): nothing of the command is in place when the acknowledgement is answered with a rejection.**
+    `b` any reachable state in which the worker is executing the put `c` with handle `h`; the worker's action `b → b'`
+    answers the cell `h` with `Rejected(r)`.  Then this action changes NOTHING but the cell and the rejection counter
+    (store, ledger, total, index: as in `b`); in `b'` the command's id is not charged, no store entry carries it, no index
+    entry carries it; and, by reason:
+    * `KeyAlreadyExists`: the action is the re-check `store.present`, and the key IS present in `b` (under another id);
+    * `TooHeavy`: the action is the re-check, the key is absent, the weight exceeds the cache's weight;
+    * `NoSpace`: the action is a step of the eviction loop (`sample.init`, `sample.fill`, or the `wu.space` re-check when
+      the sample ran dry, which found `max − used < w`), the key is absent.  Victims evicted EARLIER in the loop stay
+      evicted (observation O5): `C12_layerB_put_before_insert_step` lists what the loop's actions change.
+    A put is never answered `KeyDoesNotExist`. -/
+theorem C12_layerB_put_rejected_no_effect {cfg : Cfg} {now : Nat} {seeds : List Nat} {clients : Nat} {b b' : BState}
+    {o o' : Oracle} {c : PutCmd} {h : Nat} {r : Reject} (hr : Reach cfg now seeds clients b)
+    (hc : b.w.cmd? = some c) (hh : c.h = some h) (hs : stepB b .worker o = .ok (b', o'))
+    (ha : b'.g.acks[h]? = some (.rejected r)) :
+    b.g.acks[h]? = some .pending ∧ b'.w = .recv ∧
+    b'.g.store = b.g.store ∧ b'.g.adm = b.g.adm ∧ b'.g.ttl = b.g.ttl ∧
+    b'.g.adm.kw.get? c.id = none ∧ (∀ k e, b'.g.store.get? k = some e → e.id ≠ c.id) ∧
+    (∀ sh, b'.g.ttl.get? (sh, c.id) = none) ∧
+    ((r = .keyAlreadyExists ∧ b.w = .present c ∧ b.g.store.contains c.k = true) ∨
+     (r = .tooHeavy ∧ b.w = .present c ∧ b.g.store.get? c.k = none ∧ c.w > b.g.adm.max) ∨
+     (r = .noSpace ∧ b.g.store.get? c.k = none ∧
+       ((∃ space e, b.w = .sampleInit c space e) ∨ (∃ e s space, b.w = .fill c e s space) ∨
+        (b.w = .emptySpace c ∧ b.g.adm.max - b.g.adm.used < c.w)))) := by
+  have hheld : b.w.held = some h := by rw [(ack_held_of_cmd hc).1, hh]
+  have hlt := ack_held_lt hr hheld
+  have hb := binv_reach hr
+  obtain ⟨hrecv, _, hp⟩ := ack_answer_recv (hinv_reach hr) hheld hs ha (by simp)
+  have hfresh : ∀ {w : WPc}, b.w = w → w.pendId? = some c.id →
+      b.g.adm.kw.get? c.id = none ∧ (∀ k e, b.g.store.get? k = some e → e.id ≠ c.id) ∧
+      (∀ sh, b.g.ttl.get? (sh, c.id) = none) := by
+    intro w hw hpend
+    have h1 := hb.freshIds.2.2.2.1 c.id (by rw [hw]; exact hpend)
+    have h2 := ack_fresh_unused hb (f := c.id) (by rw [hw]; cases w <;> simp_all [WPc.pendId?, WPc.freshId?])
+    exact ⟨h1, h2⟩
+  rcases ack_put_last_action hc hs hrecv with ⟨hw, hk, rfl⟩ | ⟨hw, hk, hm, rfl⟩ | ⟨hpos, rfl⟩ | ⟨hw, _, rfl⟩ |
+    ⟨e, hw, hb'⟩
+  · rw [hh, ack_finishCmd_get hlt] at ha
+    simp only [Option.some.injEq, Status.rejected.injEq] at ha
+    obtain ⟨f1, f2, f3⟩ := hfresh hw rfl
+    exact ⟨hp, rfl, rfl, rfl, rfl, f1, f2, f3, Or.inl ⟨ha.symm, hw, hk⟩⟩
+  · rw [hh, ack_rejectCmd_get hlt] at ha
+    simp only [Option.some.injEq, Status.rejected.injEq] at ha
+    obtain ⟨f1, f2, f3⟩ := hfresh hw rfl
+    refine ⟨hp, rfl, rfl, rfl, rfl, f1, f2, f3, Or.inr (Or.inl ⟨ha.symm, hw, ?_, hm⟩)⟩
+    simpa [AMap.contains] using hk
+  · rw [hh, ack_rejectCmd_get hlt] at ha
+    simp only [Option.some.injEq, Status.rejected.injEq] at ha
+    have hab : b.g.store.get? c.k = none := by
+      apply wabsent_reach hr c
+      rcases hpos with ⟨_, _, hw⟩ | ⟨_, _, _, hw⟩ | ⟨hw, _⟩ <;> rw [hw] <;> rfl
+    obtain ⟨f1, f2, f3⟩ : b.g.adm.kw.get? c.id = none ∧ (∀ k e, b.g.store.get? k = some e → e.id ≠ c.id) ∧
+        (∀ sh, b.g.ttl.get? (sh, c.id) = none) := by
+      rcases hpos with ⟨_, _, hw⟩ | ⟨_, _, _, hw⟩ | ⟨hw, _⟩ <;> exact hfresh hw rfl
+    exact ⟨hp, rfl, rfl, rfl, rfl, f1, f2, f3, Or.inr (Or.inr ⟨ha.symm, hab, hpos⟩)⟩
+  · rw [hh, ack_finishCmd_get (by simpa using hlt)] at ha; cases ha
+  · rw [hb', hh, ack_finishCmd_get (by simpa [ttlPut] using hlt)] at ha; cases ha
+
+/-- **What the worker's actions of a put change BEFORE `kw.insert`** (the re-check, the admission, the eviction loop —
+    everything that can precede a rejection): the index never; the store and the ledger only by the three actions of an
+    eviction — `kw.remove` of a victim (its charge leaves the ledger), `wu.sub` (the total drops by the victim's weight),
+    `store.remove` (the victim's key leaves the store).  These are the changes a `NoSpace` rejection leaves behind
+    (observation O5); a rejection at the re-check (`KeyAlreadyExists`, `TooHeavy`) is preceded by none. -/
+theorem C12_layerB_put_before_insert_step {b b' : BState} {o o' : Oracle} {f : Nat} (hpend : b.w.pendId? = some f)
+    (hni : ∀ c, b.w ≠ .insert c) (hs : stepB b .worker o = .ok (b', o')) :
+    b'.g.ttl = b.g.ttl ∧
+    ((b'.g.store = b.g.store ∧ b'.g.adm = b.g.adm) ∨
+     (∃ c e s victim wk, b.w = .evRemove c e s victim ∧ b.g.adm.kw.get? victim.id = some wk ∧
+        b'.g.store = b.g.store ∧ b'.g.adm = { b.g.adm with kw := b.g.adm.kw.del victim.id } ∧
+        b'.w = .evSub c e s victim.id wk) ∨
+     (∃ c e s id wk, b.w = .evSub c e s id wk ∧ b'.g.store = b.g.store ∧
+        b'.g.adm = { b.g.adm with used := b.g.adm.used - wk.weight } ∧ b'.w = .evStore c e s id wk) ∨
+     (∃ c e s id wk, b.w = .evStore c e s id wk ∧ b'.g.store = b.g.store.del wk.key ∧ b'.g.adm = b.g.adm)) := by
+  have ht := workerAct_trans (ack_stepB_worker hs)
+  cases ht
+  case evRemoveSome c e s victim wk hw hg =>
+    exact ⟨rfl, Or.inr (Or.inl ⟨c, e, s, victim, wk, hw, hg, rfl, rfl, rfl⟩)⟩
+  case evSub c e s id wk hw _ => exact ⟨rfl, Or.inr (Or.inr (Or.inl ⟨c, e, s, id, wk, hw, rfl, rfl, rfl⟩))⟩
+  case evStore c e s id wk hw _ =>
+    exact ⟨by simp, Or.inr (Or.inr (Or.inr ⟨c, e, s, id, wk, hw, by simp [applyEvict_store], by simp⟩))⟩
+  case insert c hw => exact absurd hw (hni c)
+  all_goals first
+    | exact ⟨rfl, Or.inl ⟨rfl, rfl⟩⟩
+    | (rename_i hw; rw [hw] at hpend; cases hpend)
+    | (rename_i hw _; rw [hw] at hpend; cases hpend)
+    | (rename_i hw _ _; rw [hw] at hpend; cases hpend)
+
+/-! ### stability: the effect of a put stays in place until an action is aimed at the key or the key id -/
+
+/-- one action not aimed at `c.k` / `c.id` keeps the effect of the put in place (running cache) -/
+theorem PutEffect.undisturbed_step {b b' : BState} {a : Act} {o o' : Oracle} {c : PutCmd} {exp : Option Nat}
+    (hb : BInv b) (hwa : WAbsent b) (hrun : b.g.shutting = false) (he : PutEffect b c exp)
+    (hs : stepB b a o = .ok (b', o')) (hd : disturbs c.k c.id b a = false) : PutEffect b' c exp := by
+  obtain ⟨h1, h2, h3⟩ := disturbs_false hd
+  refine ⟨C03_layerB_quiet_step hwa hs h1 he.stored, ?_, ?_⟩
+  · rw [ack_kw_quiet_step hb hrun hs h2]; exact he.charged
+  · intro e hx
+    rw [stepB_cfg hs, ack_ttl_quiet_step hb hrun hs h3]
+    exact he.indexed e hx
+
+/-- **C12 (interface, put): once in place, the effect of a put stays in place** along every run — any interleaving of
+    any threads — in which no action is aimed at the key (`Delete(k)`'s `store.remove`, an eviction or a sweep of a charge
+    of `k`, `upsert.update` / `delete.mark` of `k`) or at the key id (`kw.remove` / `kw.update` / `kw.insert` of the id, an
+    index action of the id), as long as the cache is running. -/
+theorem PutEffect.undisturbed {cfg : Cfg} {now : Nat} {seeds : List Nat} {clients : Nat} {b b' : BState} {c : PutCmd}
+    {exp : Option Nat} (hr : Reach cfg now seeds clients b) (hq : Undisturbed c.k c.id b b')
+    (hrun : b'.g.shutting = false) (he : PutEffect b c exp) : PutEffect b' c exp := by
+  induction hq with
+  | refl => exact he
+  | step hq1 hs hd ih =>
+    have hrun1 := stepB_running_before hs hrun
+    have hr1 := hq1.reach hr
+    exact (ih hrun1).undisturbed_step (binv_reach hr1) (wabsent_reach hr1) hrun1 hs hd
+
+theorem undisturbed_dead {k id : Nat} {b b' : BState} (hq : Undisturbed k id b b') (hd : b.w = .dead) : b'.w = .dead := by
+  induction hq with
+  | refl => exact hd
+  | step _ hs _ ih => exact dead_step hs ih
+
+/-- between `store.put` and `ttl.put` of the put under `id`: an undisturbed run leaves the worker where it is (its own
+    next action, `ttl.put`, is aimed at `id`), keeps the stored entry and the charge -/
+theorem ack_ttlPut_window {cfg : Cfg} {now : Nat} {seeds : List Nat} {clients : Nat} {b b' : BState} {c : PutCmd}
+    {e : Nat} {ent : Entry} {wk : WKey} (hr : Reach cfg now seeds clients b) (hq : Undisturbed c.k c.id b b')
+    (hrun : b'.g.shutting = false) (hw : b.w = .ttlPut c e) (hst : b.g.store.get? c.k = some ent)
+    (hch : b.g.adm.kw.get? c.id = some wk) :
+    b'.w = .ttlPut c e ∧ b'.g.store.get? c.k = some ent ∧ b'.g.adm.kw.get? c.id = some wk := by
+  induction hq with
+  | refl => exact ⟨hw, hst, hch⟩
+  | @step b1 b2 a o o' hq1 hs hd ih =>
+    have hrun1 := stepB_running_before hs hrun
+    have hr1 := hq1.reach hr
+    obtain ⟨i1, i2, i3⟩ := ih hrun1
+    obtain ⟨h1, h2, h3⟩ := disturbs_false hd
+    have ha : a ≠ .worker := by
+      intro e'; subst e'
+      simp [ttlTouches, i1] at h3
+    refine ⟨by rw [ent_stepB_w_other hs ha]; exact i1, C03_layerB_quiet_step (wabsent_reach hr1) hs h1 i2, ?_⟩
+    rw [ack_kw_quiet_step (binv_reach hr1) hrun1 hs h2]; exact i3
+
+theorem ack_addTime {now t e : Nat} (h : addTime now t = some e) : e = now + t := by
+  unfold addTime at h
+  split at h
+  · cases h; rfl
+  · cases h
+
+/-- **C12 (put with time-to-live), what holds UNCONDITIONALLY when the acknowledgement is answered `Accepted`.**
+    The answering action is `ttl.put` (a separate action AFTER `store.put`).  In `b'`: the index holds
+    `(shard of e, id) ↦ e` for the deadline `e` the worker wrote at `store.put`; the action changes neither the store
+    nor the ledger; the entry stored under `c.k` — IF ANY — still carries the id `c.id`; the charge of `c.id` — IF ANY —
+    is the command's.
+    The full effect (`PutEffect b' c (some e)`) is NOT guaranteed: between `store.put` and `ttl.put` the entry is
+    already visible and other threads may act on it (`C12_layerB_put_ttl_effect_before_ack_counterexample`); it holds
+    when none does (`C12_layerB_put_ttl_effect_before_ack`). -/
+theorem C12_layerB_put_ttl_effect_before_ack_partial {cfg : Cfg} {now : Nat} {seeds : List Nat} {clients : Nat}
+    {b b' : BState} {o o' : Oracle} {c : PutCmd} {h t : Nat} (hr : Reach cfg now seeds clients b)
+    (hrun : b.g.shutting = false) (hc : b.w.cmd? = some c) (hh : c.h = some h) (httl : c.ttl = some t)
+    (hs : stepB b .worker o = .ok (b', o')) (ha : b'.g.acks[h]? = some .accepted) :
+    ∃ e, b.w = .ttlPut c e ∧ b.g.acks[h]? = some .pending ∧ b'.w = .recv ∧
+      b'.g.ttl.get? (shardOf b'.g.cfg e, c.id) = some e ∧
+      (∀ p, p ≠ (shardOf b'.g.cfg e, c.id) → b'.g.ttl.get? p = b.g.ttl.get? p) ∧
+      b'.g.store = b.g.store ∧ b'.g.adm = b.g.adm ∧
+      (∀ ent, b'.g.store.get? c.k = some ent → ent.id = c.id) ∧
+      (∀ wk, b'.g.adm.kw.get? c.id = some wk → wk = { key := c.k, hash := c.hash, weight := c.w }) := by
+  have hheld : b.w.held = some h := by rw [(ack_held_of_cmd hc).1, hh]
+  have hlt := ack_held_lt hr hheld
+  obtain ⟨hrecv, _, hp⟩ := ack_answer_recv (hinv_reach hr) hheld hs ha (by simp)
+  rcases ack_put_last_action hc hs hrecv with ⟨_, _, rfl⟩ | ⟨_, _, _, rfl⟩ | ⟨_, rfl⟩ | ⟨_, hn, _⟩ | ⟨e, hw, rfl⟩
+  · rw [hh, ack_finishCmd_get hlt] at ha; cases ha
+  · rw [hh, ack_rejectCmd_get hlt] at ha; cases ha
+  · rw [hh, ack_rejectCmd_get hlt] at ha; cases ha
+  · rw [httl] at hn; cases hn
+  · have hi := ackInv_reach hr
+    refine ⟨e, hw, hp, rfl, by simp [finishCmd, ttlPut], ?_, rfl, rfl, hi.ttlPutStore c e hw, hi.ttlPutCharge hrun c e hw⟩
+    intro p hne
+    simp only [finishCmd, ttlPut] at hne ⊢
+    exact AMap.get?_set_other _ _ (Ne.symm hne)
+
+/-- **C12 (put with time-to-live): the effect is in place when the acknowledgement is answered `Accepted` — provided no
+    action is aimed at the key or the key id between `store.put` and `ttl.put`.**
+    `b0` reachable, the worker at `store.put` of the put `c` (time-to-live `t`, handle `h`); `b0 → b1` is that action;
+    `b1 ⇒ b` any run of any threads not aimed at `c.k` / `c.id` (`Undisturbed`); `b → b'` the worker's next action; the
+    cache is running.  Then: the key was absent in `b0`; the deadline written is `e = (clock of the store.put action) + t`;
+    the worker stands at `ttl.put` all along; `b → b'` answers the cell `h` with `Accepted`; and in `b'` the store holds
+    exactly `(v, id, some e, not soft-deleted)` under `k`, the id is charged with `w` for `k`, the index holds
+    `(shard of e, id) ↦ e`, and the total includes `w`. -/
+theorem C12_layerB_put_ttl_effect_before_ack {cfg : Cfg} {now : Nat} {seeds : List Nat} {clients : Nat}
+    {b0 b1 b b' : BState} {o0 o1 o o' : Oracle} {c : PutCmd} {h t : Nat} (hr : Reach cfg now seeds clients b0)
+    (hw0 : b0.w = .storePut c) (hh : c.h = some h) (httl : c.ttl = some t)
+    (hs0 : stepB b0 .worker o0 = .ok (b1, o1)) (hq : Undisturbed c.k c.id b1 b)
+    (hs : stepB b .worker o = .ok (b', o')) (hrun : b'.g.shutting = false) :
+    b0.g.store.get? c.k = none ∧ b1.w = .ttlPut c (b0.g.now + t) ∧ b.w = .ttlPut c (b0.g.now + t) ∧
+    b.g.acks[h]? = some .pending ∧ b'.g.acks[h]? = some .accepted ∧ b'.w = .recv ∧
+    PutEffect b' c (some (b0.g.now + t)) ∧
+    b'.g.adm.used = c.w + sumW (b'.g.adm.kw.del c.id) + pendingSub b' := by
+  have hr1 : Reach cfg now seeds clients b1 := .step hr hs0
+  have hrb := hq.reach hr1
+  have hrunb := stepB_running_before hs hrun
+  have hrun1 := hq.running hrunb
+  have hrun0 := stepB_running_before hs0 hrun1
+  have hab := wabsent_reach hr c (by rw [hw0]; rfl)
+  obtain ⟨_, _, ⟨hn, _⟩ | ⟨t', _, _, rfl⟩ | ⟨t', e, ht', hat, rfl⟩⟩ := ent_workerAct_storePut hw0 (ack_stepB_worker hs0)
+  · rw [httl] at hn; cases hn
+  · have hd := undisturbed_dead hq rfl
+    simp [stepB, workerAct, hd] at hs
+  · rw [httl] at ht'; cases ht'
+    have he := ack_addTime hat
+    subst he
+    have hch0 := (ackInv_reach hr).putCharged hrun0 c hw0
+    obtain ⟨hwb, hstb, hchb⟩ := ack_ttlPut_window (c := c) (e := b0.g.now + t)
+      (ent := { value := c.v, id := c.id, expiry := some (b0.g.now + t), soft := false })
+      (wk := { key := c.k, hash := c.hash, weight := c.w }) hr1 hq hrunb rfl
+      (by simp) (by simpa using hch0)
+    have hheld : b.w.held = some h := by rw [hwb]; exact hh
+    have hlt := ack_held_lt hrb hheld
+    obtain ⟨_, _, rfl⟩ := ack_workerAct_ttlPut hwb (ack_stepB_worker hs)
+    have hr' : Reach cfg now seeds clients _ := .step hrb hs
+    have heff : PutEffect (finishCmd { b with g := ttlPut b.g c.id (b0.g.now + t) } c.h .accepted) c
+        (some (b0.g.now + t)) := by
+      refine ⟨by simpa [finishCmd, ttlPut] using hstb, by simpa [finishCmd, ttlPut] using hchb, ?_⟩
+      intro e he
+      cases he
+      simp [finishCmd, ttlPut]
+    refine ⟨hab, rfl, hwb, ((hinv_reach hrb).held h hheld).1, ?_, rfl, heff, ?_⟩
+    · rw [hh]; exact ack_finishCmd_get (by simpa [ttlPut] using hlt)
+    · have := ack_total_includes (binv_reach hr') hrun heff.charged
+      have hpa : pendingAdd (finishCmd { b with g := ttlPut b.g c.id (b0.g.now + t) } c.h .accepted) = 0 := rfl
+      rw [hpa] at this
+      simpa using this
+
+/-! ## 3  `delete`: the entry is gone and its weight no longer counted when the acknowledgement is answered -/
+
+/-- the worker stays inside ONE command: a run of any threads every action of which leaves the worker busy (it does not
+    complete the command it is executing, and does not die) -/
+inductive InCmd : BState → BState → Prop where
+  | refl (b : BState) : InCmd b b
+  | step {b b1 b' : BState} {a : Act} {o o' : Oracle} :
+      InCmd b b1 → stepB b1 a o = .ok (b', o') → b'.w.busy = true → InCmd b b'
+
+theorem InCmd.reach {cfg : Cfg} {now : Nat} {seeds : List Nat} {clients : Nat} {b b' : BState}
+    (h : InCmd b b') (hr : Reach cfg now seeds clients b) : Reach cfg now seeds clients b' := by
+  induction h with
+  | refl => exact hr
+  | step _ hs _ ih => exact .step ih hs
+
+theorem InCmd.running {b b' : BState} (h : InCmd b b') (hrun : b'.g.shutting = false) : b.g.shutting = false := by
+  induction h with
+  | refl => exact hrun
+  | step _ hs _ ih => exact ih (stepB_running_before hs hrun)
+
+/-- an answer stays along the run -/
+theorem InCmd.answered {cfg : Cfg} {now : Nat} {seeds : List Nat} {clients : Nat} {b b' : BState} {h : Nat} {st : Status}
+    (hq : InCmd b b') (hr : Reach cfg now seeds clients b) (ha : b.g.acks[h]? = some st) (hne : st ≠ .pending) :
+    b'.g.acks[h]? = some st := by
+  induction hq with
+  | refl => exact ha
+  | step hq1 hs _ ih => exact (C11_layerB_acks_grow (hinv_reach (hq1.reach hr)) hs).2 h st ih hne
+
+/-- where the worker stands inside a `Delete(k)` after its `store.remove` took the entry `ent` out: at `kw.remove`, or
+    — the charge of `ent.id` gone — at `wu.sub` / `ttl.delete`; the key is absent -/
+def DelPos (k : Nat) (ent : Entry) (hh : Option Nat) (b : BState) : Prop :=
+  b.g.store.get? k = none ∧
+  (b.w = .delKw ent.id ent.expiry hh ∨
+   (((∃ wk, b.w = .delSub ent.id wk ent.expiry hh) ∨ (∃ e, ent.expiry = some e ∧ b.w = .delTtl ent.id e hh)) ∧
+     b.g.adm.kw.get? ent.id = none))
+
+theorem delPos_step {b b' : BState} {a : Act} {o o' : Oracle} {k : Nat} {ent : Entry} {hh : Option Nat} (hb : BInv b)
+    (hrun : b.g.shutting = false) (hp : DelPos k ent hh b) (hs : stepB b a o = .ok (b', o'))
+    (hbusy : b'.w.busy = true) : DelPos k ent hh b' := by
+  obtain ⟨hk, hpos⟩ := hp
+  by_cases ha : a = .worker
+  · subst ha
+    have hwa := ack_stepB_worker hs
+    rcases hpos with hw | ⟨⟨wk, hw⟩ | ⟨e, hexp, hw⟩, hkw⟩
+    · obtain ⟨_, ⟨wk, hg, rfl⟩ | ⟨e, hg, hexp, rfl⟩ | ⟨_, _, rfl⟩⟩ := ack_workerAct_delKw hw hwa
+      · exact ⟨hk, Or.inr ⟨Or.inl ⟨wk, rfl⟩, by simp⟩⟩
+      · exact ⟨hk, Or.inr ⟨Or.inr ⟨e, hexp, rfl⟩, hg⟩⟩
+      · cases hbusy
+    · obtain ⟨_, _, ⟨e, hexp, rfl⟩ | ⟨_, rfl⟩⟩ := ack_workerAct_delSub hw hwa
+      · exact ⟨hk, Or.inr ⟨Or.inr ⟨e, hexp, rfl⟩, hkw⟩⟩
+      · cases hbusy
+    · obtain ⟨_, _, rfl⟩ := ack_workerAct_delTtl hw hwa
+      cases hbusy
+  · have hw := ent_stepB_w_other hs ha
+    refine ⟨(stepB_storeEff hs).noCreate (fun e => absurd e ha) hk, ?_⟩
+    rw [hw]
+    rcases hpos with hw0 | ⟨hpos, hkw⟩
+    · exact Or.inl hw0
+    · refine Or.inr ⟨hpos, ?_⟩
+      cases hg : b'.g.adm.kw.get? ent.id with
+      | none => rfl
+      | some wk => rw [ack_kw_no_new hb hrun hs ha hg] at hkw; cases hkw
+
+theorem delPos_run {cfg : Cfg} {now : Nat} {seeds : List Nat} {clients : Nat} {b b' : BState} {k : Nat} {ent : Entry}
+    {hh : Option Nat} (hr : Reach cfg now seeds clients b) (hq : InCmd b b') (hrun : b'.g.shutting = false)
+    (hp : DelPos k ent hh b) : DelPos k ent hh b' := by
+  induction hq with
+  | refl => exact hp
+  | step hq1 hs hbusy ih =>
+    have hrun1 := stepB_running_before hs hrun
+    exact delPos_step (binv_reach (hq1.reach hr)) hrun1 (ih hrun1) hs hbusy
+
+/-- **C04 (delete): the effect is in place when the acknowledgement is answered `Accepted`.**
+    `b0` reachable, the worker at `store.remove` of `Delete(k)` with handle `h` (the first action of the command after
+    its take); `b0 → b1` is that action; `b1 ⇒ b` any run of any threads during which the worker stays inside the command
+    (`InCmd`); `b → b'` the worker's action that answers the cell `h` with `Accepted`; the cache is running.  Then
+    `b0` held an entry `ent` under `k`, and in `b'`:
+    * the key is ABSENT from the store (only the worker creates entries, and it has been busy with this `Delete`);
+    * the id `ent.id` the entry carried is NOT CHARGED;
+    * the accounting identity holds with nothing of the worker in flight: `used = Σ charged weights + (the sweeper's
+      in-flight subtraction)` — `ent.id` is not among the charges, so its weight is no longer counted
+      (the worker's own `wu.sub` of this command lowered `used` by exactly the charge its `kw.remove` found:
+      `ack_workerAct_delKw`, `ack_workerAct_delSub`);
+    * the index entry `(shard of e, ent.id)` for the STORED deadline `e` of the removed entry is gone
+      (if the stored deadline was out of step with the index — a `put_or_update` in flight — an entry for `ent.id` may
+      remain in another shard: C10, `IndexStep.lean`). -/
+theorem C04_layerB_delete_effect_before_ack {cfg : Cfg} {now : Nat} {seeds : List Nat} {clients : Nat}
+    {b0 b1 b b' : BState} {o0 o1 o o' : Oracle} {k h : Nat} (hr : Reach cfg now seeds clients b0)
+    (hw0 : b0.w = .delStore k (some h)) (hs0 : stepB b0 .worker o0 = .ok (b1, o1)) (hq : InCmd b1 b)
+    (hs : stepB b .worker o = .ok (b', o')) (hrun : b'.g.shutting = false) (ha : b'.g.acks[h]? = some .accepted) :
+    ∃ ent, b0.g.store.get? k = some ent ∧ b.g.acks[h]? = some .pending ∧ b'.w = .recv ∧
+      b'.g.store.get? k = none ∧ b'.g.adm.kw.get? ent.id = none ∧
+      b'.g.adm.used = sumW b'.g.adm.kw + pendingSub b' ∧
+      (∀ e, ent.expiry = some e → b'.g.ttl.get? (shardOf b'.g.cfg e, ent.id) = none) := by
+  have hr1 : Reach cfg now seeds clients b1 := .step hr hs0
+  have hrb := hq.reach hr1
+  have hr' : Reach cfg now seeds clients b' := .step hrb hs
+  have hrunb := stepB_running_before hs hrun
+  have hlt0 := ack_held_lt hr (h := h) (by rw [hw0]; rfl)
+  obtain ⟨_, _, ⟨_, rfl⟩ | ⟨ent, hent, rfl⟩⟩ := ent_workerAct_delStore hw0 (ack_stepB_worker hs0)
+  · -- rejected on the spot: the cell holds `KeyDoesNotExist` for ever
+    have h1 := hq.answered hr1 (ack_finishCmd_get (st := .rejected .keyDoesNotExist) hlt0) (by simp)
+    have h2 := (C11_layerB_acks_grow (hinv_reach hrb) hs).2 h _ h1 (by simp)
+    rw [h2] at ha; cases ha
+  · have hp : DelPos k ent (some h) b := delPos_run hr1 hq hrunb ⟨by simp, Or.inl rfl⟩
+    obtain ⟨hk, hpos⟩ := hp
+    have hheld : b.w.held = some h := by
+      rcases hpos with hw | ⟨⟨wk, hw⟩ | ⟨e, _, hw⟩, _⟩ <;> rw [hw] <;> rfl
+    have hlt := ack_held_lt hrb hheld
+    obtain ⟨hrecv, _, hpend⟩ := ack_answer_recv (hinv_reach hrb) hheld hs ha (by simp)
+    have hsum : b'.g.adm.used = sumW b'.g.adm.kw + pendingSub b' := by
+      have := ((binv_reach hr').acct hrun).sum
+      have hpa : pendingAdd b' = 0 := by simp [pendingAdd, hrecv]
+      omega
+    have hwa := ack_stepB_worker hs
+    refine ⟨ent, hent, hpend, hrecv, ?_, ?_, hsum, ?_⟩
+    · rcases hpos with hw | ⟨⟨wk, hw⟩ | ⟨e, _, hw⟩, _⟩
+      · obtain ⟨_, ⟨wk, _, rfl⟩ | ⟨e, _, _, rfl⟩ | ⟨_, _, rfl⟩⟩ := ack_workerAct_delKw hw hwa <;> exact hk
+      · obtain ⟨_, _, ⟨e, _, rfl⟩ | ⟨_, rfl⟩⟩ := ack_workerAct_delSub hw hwa <;> exact hk
+      · obtain ⟨_, _, rfl⟩ := ack_workerAct_delTtl hw hwa; exact hk
+    · rcases hpos with hw | ⟨⟨wk, hw⟩ | ⟨e, _, hw⟩, hkw⟩
+      · obtain ⟨_, ⟨wk, _, rfl⟩ | ⟨e, _, _, rfl⟩ | ⟨hg, _, rfl⟩⟩ := ack_workerAct_delKw hw hwa
+        · cases hrecv
+        · cases hrecv
+        · exact hg
+      · obtain ⟨_, _, ⟨e, _, rfl⟩ | ⟨_, rfl⟩⟩ := ack_workerAct_delSub hw hwa <;> exact hkw
+      · obtain ⟨_, _, rfl⟩ := ack_workerAct_delTtl hw hwa; exact hkw
+    · intro e hexp
+      rcases hpos with hw | ⟨⟨wk, hw⟩ | ⟨e', hexp', hw⟩, hkw⟩
+      · obtain ⟨_, ⟨wk, _, rfl⟩ | ⟨e1, _, _, rfl⟩ | ⟨_, hn, rfl⟩⟩ := ack_workerAct_delKw hw hwa
+        · cases hrecv
+        · cases hrecv
+        · rw [hexp] at hn; cases hn
+      · obtain ⟨_, _, ⟨e1, _, rfl⟩ | ⟨hn, rfl⟩⟩ := ack_workerAct_delSub hw hwa
+        · cases hrecv
+        · rw [hexp] at hn; cases hn
+      · obtain ⟨_, _, rfl⟩ := ack_workerAct_delTtl hw hwa
+        rw [hexp] at hexp'; cases hexp'
+        simp [finishCmd, ttlDelete]
+
+/-- **C04 (delete, rejected): `Rejected(KeyDoesNotExist)` means the store held no entry of the key when the worker looked,
+    and nothing changed.**  The only rejection a `Delete` is answered with; it is answered in the command's first action
+    (`store.remove`), which leaves store, ledger, total, index and statistics exactly as they were. -/
+theorem C04_layerB_delete_rejected_no_effect {cfg : Cfg} {now : Nat} {seeds : List Nat} {clients : Nat} {b b' : BState}
+    {o o' : Oracle} {k h : Nat} {r : Reject} (hr : Reach cfg now seeds clients b) (hw : b.w = .delStore k (some h))
+    (hs : stepB b .worker o = .ok (b', o')) (ha : b'.g.acks[h]? = some (.rejected r)) :
+    r = .keyDoesNotExist ∧ b.g.store.get? k = none ∧ b.g.acks[h]? = some .pending ∧
+    b' = finishCmd b (some h) (.rejected .keyDoesNotExist) ∧
+    b'.g.store = b.g.store ∧ b'.g.adm = b.g.adm ∧ b'.g.ttl = b.g.ttl ∧ b'.g.stats = b.g.stats := by
+  have hheld : b.w.held = some h := by rw [hw]; rfl
+  have hlt := ack_held_lt hr hheld
+  have hpend := ((hinv_reach hr).held h hheld).1
+  obtain ⟨_, _, ⟨hk, rfl⟩ | ⟨ent, _, rfl⟩⟩ := ent_workerAct_delStore hw (ack_stepB_worker hs)
+  · rw [ack_finishCmd_get hlt] at ha
+    simp only [Option.some.injEq, Status.rejected.injEq] at ha
+    exact ⟨ha.symm, hk, hpend, rfl, rfl, rfl, rfl, rfl⟩
+  · simp only [] at ha
+    rw [hpend] at ha; cases ha
+
+/-- **C04: the key can be put again.**  In a state in which the key is absent (in particular the state in which a
+    `Delete` is answered `Accepted`, `C04_layerB_delete_effect_before_ack`) neither presence check refuses a put of it:
+    the caller's check moves on to `id.next`, the worker's re-check moves on to the admission (or refuses the put as too
+    heavy) — the put is admitted or rejected by ADMISSION alone. -/
+theorem C04_layerB_put_again_not_refused {b : BState} {k : Nat} (hk : b.g.store.get? k = none) :
+    (∀ {i v : Nat} {w : Int} {ttl : Option Nat} {o o' : Oracle} {b' : BState},
+      b.cl[i]? = some (.putPresent k v w ttl) → stepB b (.client i) o = .ok (b', o') →
+      b' = setClient b i (.idNext k v w ttl)) ∧
+    (∀ {c : PutCmd} {o o' : Oracle} {b' : BState}, b.w = .present c → c.k = k → stepB b .worker o = .ok (b', o') →
+      b' = { b with w := .space0 c } ∨ (c.w > b.g.adm.max ∧ b' = rejectCmd b c.h (.rejected .tooHeavy))) := by
+  constructor
+  · intro i v w ttl o o' b' hpc hs
+    exact C07_layerB_absent_not_refused.1 hpc hk hs
+  · intro c o o' b' hw hck hs
+    exact C07_layerB_absent_not_refused.2 hw (by rw [hck]; exact hk) hs
+
+/-! ## 4  `UpdateWeight`: the charge is the new weight when the acknowledgement is answered — or the id was not charged -/
+
+/-- **C08 (`UpdateWeight(id, w)`, sent by `put_or_update`): what holds when its acknowledgement is answered.**
+    The command is ONE worker action (`kw.update`).  If it answers the cell at all (it may panic on an `i64` overflow
+    instead: D-finding of C17), the answer is `Accepted`, and
+    * EITHER the id was charged (`wk`): in `b'` it is charged with exactly `w` (key and hash unchanged), the total
+      changed by `w − wk.weight`, no other charge changed;
+    * OR the id was NOT charged when the worker looked (its entry was deleted, evicted or swept in the meantime):
+      NOTHING changed — an `Accepted` no-op.  This is part of the known observations O6 / D14: `Accepted` does not say
+      that the weight was applied.
+    Store and index are untouched either way. -/
+theorem C08_layerB_update_weight_effect_before_ack {cfg : Cfg} {now : Nat} {seeds : List Nat} {clients : Nat}
+    {b b' : BState} {o o' : Oracle} {id h : Nat} {w : Int} {st : Status} (hr : Reach cfg now seeds clients b)
+    (hw : b.w = .update id w (some h)) (hs : stepB b .worker o = .ok (b', o')) (ha : b'.g.acks[h]? = some st)
+    (hne : st ≠ .pending) :
+    st = .accepted ∧ b.g.acks[h]? = some .pending ∧ b'.w = .recv ∧ b'.g.store = b.g.store ∧ b'.g.ttl = b.g.ttl ∧
+    ((∃ wk, b.g.adm.kw.get? id = some wk ∧ b'.g.adm.kw.get? id = some { wk with weight := w } ∧
+        b'.g.adm.used = b.g.adm.used + (w - wk.weight) ∧
+        (∀ id', id' ≠ id → b'.g.adm.kw.get? id' = b.g.adm.kw.get? id')) ∨
+     (b.g.adm.kw.get? id = none ∧ b'.g.adm = b.g.adm ∧ b'.g.stats = b.g.stats)) := by
+  have hheld : b.w.held = some h := by rw [hw]; rfl
+  have hlt := ack_held_lt hr hheld
+  have hpend := ((hinv_reach hr).held h hheld).1
+  obtain ⟨_, _, ⟨hg, rfl⟩ | ⟨wk, hg, _, _, rfl⟩ | ⟨wk, _, _, rfl⟩⟩ := ack_workerAct_update hw (ack_stepB_worker hs)
+  · rw [ack_finishCmd_get hlt] at ha
+    simp only [Option.some.injEq] at ha
+    exact ⟨ha.symm, hpend, rfl, rfl, rfl, Or.inr ⟨hg, rfl, rfl⟩⟩
+  · rw [ack_finishCmd_get (by simpa using hlt)] at ha
+    simp only [Option.some.injEq] at ha
+    refine ⟨ha.symm, hpend, rfl, rfl, rfl, Or.inl ⟨wk, hg, by simp [finishCmd], rfl, ?_⟩⟩
+    intro id' hid
+    simp [finishCmd, AMap.get?_set_other _ _ (Ne.symm hid)]
+  · simp only [] at ha
+    rw [hpend] at ha
+    simp only [Option.some.injEq] at ha
+    exact absurd ha.symm hne
+
 end B
 end Cached
